@@ -65,11 +65,12 @@ Definition l_update_device_state (st : dstate) (dev : device) : dstate * option 
                                     d_keywarn := d_keywarn dev; d_nonces := [] |}), None)
   | None => (st, Some SNotFound)
   end.
-(* AdvanceFCntUp: UPDATE ... SET fcnt_up, key_warning WHERE eui = ? AND fcnt_up <= accepted - one statement *)
-Definition l_advance_fup (st : dstate) (accepted newfup : N) (kw : bool) : dstate * option serr :=
+(* AdvanceFCntUp: UPDATE ... SET fcnt_up, key_warning WHERE eui = ? AND fcnt_up <= accepted AND nwks_key = key - one statement;
+   key is the network session key the frame was verified under *)
+Definition l_advance_fup (st : dstate) (key : list N) (accepted newfup : N) (kw : bool) : dstate * option serr :=
   match ds_row st with
   | Some r =>
-    if d_fup r <=? accepted
+    if (d_fup r <=? accepted) && bytes_eqb (d_nwkskey r) key
     then (with_row st (Some {| d_eui := d_eui r; d_addr := d_addr r; d_appkey := d_appkey r; d_appskey := d_appskey r;
                                d_nwkskey := d_nwkskey r; d_appeui := d_appeui r; d_state := d_state r;
                                d_fup := newfup; d_fdn := d_fdn r; d_relaxed := d_relaxed r;
@@ -77,10 +78,12 @@ Definition l_advance_fup (st : dstate) (accepted newfup : N) (kw : bool) : dstat
     else (st, Some SNotFound)
   | None => (st, Some SNotFound)
   end.
-(* NextFCntDn: UPDATE ... SET fcnt_dn = (fcnt_dn + 1) % 65536 ... RETURNING - the counter to use, its successor stored *)
-Definition l_next_fdn (st : dstate) : dstate * option N :=
+(* NextFCntDn: UPDATE ... SET fcnt_dn = (fcnt_dn + 1) % 65536 WHERE eui = ? AND nwks_key = key RETURNING - the counter to use,
+   its successor stored; nothing when the device is no longer in that session *)
+Definition l_next_fdn (st : dstate) (key : list N) : dstate * option N :=
   match ds_row st with
-  | Some r => (with_row st (Some {| d_eui := d_eui r; d_addr := d_addr r; d_appkey := d_appkey r; d_appskey := d_appskey r;
+  | Some r => if negb (bytes_eqb (d_nwkskey r) key) then (st, None) else
+              (with_row st (Some {| d_eui := d_eui r; d_addr := d_addr r; d_appkey := d_appkey r; d_appskey := d_appskey r;
                                     d_nwkskey := d_nwkskey r; d_appeui := d_appeui r; d_state := d_state r;
                                     d_fup := d_fup r; d_fdn := (d_fdn r + 1) mod 65536; d_relaxed := d_relaxed r;
                                     d_keywarn := d_keywarn r; d_nonces := [] |}), Some (d_fdn r))
